@@ -1,4 +1,5 @@
 import AscentVerif.Driver.Agg
+import AscentVerif.Driver.LatTypes
 open AscentVerif AscentVerif.Driver
 
 def step (line : String) : String :=
@@ -6,6 +7,7 @@ def step (line : String) : String :=
   | none => "bad-line"
   | some [] => ""
   | some (.atom "agg" :: rest) => (handleAgg rest).getD "bad-op"
+  | some (.atom "lat" :: .atom ty :: .atom op :: rest) => (latDispatch ty op rest).getD "bad-op"
   | some _ => "bad-op"
 
 partial def loop (h : IO.FS.Stream) (out : IO.FS.Stream) : IO Unit := do
